@@ -158,7 +158,11 @@ def gen_cases(rng, tier):
         if k == 'mxint':
             f = rng.choice([rng.randrange(-140, 140) / 64, (rng.randrange(-130, 130) + 0.5) / 64, rng.uniform(-2.1, 2.1), math.nextafter((rng.randrange(-128, 128) + 0.5) / 64, rng.choice([-9, 9])), 1.984375, 1.99, -2.0, -2.01, 0.0, -0.0, float('inf'), float('-inf'), float('nan')])
         elif k == 'e8m0mxfp':
-            f = rng.choice([2.0 ** rng.randrange(-130, 131), 3.0, 0.0, float('nan'), float('inf'), 2.0 ** rng.randrange(-127, 128) * 1.0000001, -2.0])
+            p2 = 2.0 ** rng.randrange(-127, 128)
+            up = lambda x, n: x if n == 0 else up(math.nextafter(x, math.inf), n - 1)
+            dn = lambda x, n: x if n == 0 else dn(math.nextafter(x, 0.0), n - 1)
+            f = rng.choice([2.0 ** rng.randrange(-130, 131), 3.0, 0.0, float('nan'), float('inf'), p2 * 1.0000001, -2.0, -p2,
+                            up(p2, 1), up(p2, 2), up(p2, 3), dn(p2, 1), dn(p2, 2), dn(p2, 3), p2 * 1.5, p2 * 3, p2])   # neighbours of a power of two are not powers of two
         else:
             f = rng.choice([rng.uniform(-1e5, 1e5), 1.0078125 - 1e-9, 1.0, 3.38953139e38, 3.4e38, 1e39, -1e39, float('inf'), float('nan'), 1e-40, 0.0, -0.0, struct.unpack('>f', rng.getrandbits(32).to_bytes(4, 'big'))[0]])
         yield {'op': 'other', 'fmt': k, 'f': f.hex() if f == f else 'nan'}
